@@ -35,6 +35,8 @@ def _load_registry():
 
 
 def _apply(root, v) -> Optional[Dict[str, str]]:
+    if v.get('overlay') is not None:
+        return dict(v['overlay'])
     overlay = {}
     for file, old, new, count in v['edits']:
         path = os.path.join(root, file)
@@ -77,9 +79,37 @@ def _run_one(args):
         return v['id'], 'analysis-error', traceback.format_exc()[-400:], []
 
 
+def _generic_twins(root):
+    """Whole-tree behaviour-preserving transformations (sa/twins.py) as twin variants."""
+    from .twins import TRANSFORMS
+    from .index import PACKAGES
+    out = []
+    srcs = {}
+    for pkg in PACKAGES:
+        for dp, dn, fn in os.walk(os.path.join(root, pkg)):
+            for f in fn:
+                if f.endswith('.py'):
+                    full = os.path.join(dp, f)
+                    rel = os.path.relpath(full, root)
+                    if rel.startswith('rsocket/cli'):
+                        continue
+                    with open(full, encoding='utf-8') as fh:
+                        srcs[rel] = fh.read()
+    for name, fn in TRANSFORMS.items():
+        overlay = {}
+        for rel, src in srcs.items():
+            try:
+                overlay[rel] = fn(src)
+            except Exception:
+                pass
+        out.append({'id': 'g-' + name, 'props': [], 'file': '*', 'edits': [], 'overlay': overlay, 'expect': None,
+                    'kind': 'twin', 'note': 'generic transformation of every file'})
+    return out
+
+
 def validate(ctx, prop):
     rep = ctx.report
-    reg = [v for v in _load_registry() if prop in v['props']]
+    reg = [v for v in _load_registry() if prop in v['props']] + _generic_twins(ctx.repo.root)
     base_keys = {i.key() for i in rep.instances if not i.ok}
     jobs = [(ctx.repo.root, prop, v, base_keys) for v in reg]
     results = {}
